@@ -100,7 +100,9 @@ def _n1(ctx, rep):
         called |= set(getattr(sm, "callees", ()))
         for site in sm.sites:
             if not site.root:
-                origin_hits |= set(site.origins or ())
+                # a helper's write counts as reaching a caller only where it lands on something the caller did not create itself
+                if any(r[0] != FRESH[0] for r in site.regions):
+                    origin_hits |= set(site.origins or ())
                 fq = ctx.ix.funcs[q]
                 for o in site.origins or ():
                     for r in site.regions:
@@ -158,10 +160,15 @@ def _n1(ctx, rep):
                 def documented(r):
                     key = (q, "self" if (f.self_name and r[0] == f.self_name) else r[0])
                     tops = nearest_public(q, key)
-                    return bool(tops) and all(t in ALLOWED for t in tops)
+                    def own_business(t):
+                        # the helper works on the object of a constructor / setter that calls it: the same exemption as for a write
+                        # spelled out in that constructor / setter
+                        tf = ctx.ix.funcs[t[0]]
+                        return t[1] == "self" and (tf.name.startswith(SETTER_PREFIXES) or tf.kind == "setter")
+                    return bool(tops) and all(t in ALLOWED or own_business(t) for t in tops)
                 doc = {r for r in reaching if documented(r)}
                 for r in sorted(doc):
-                    rep.info("N1", f, site.node, "internal helper of an allow-listed public function: the write reaches only its documented parameter", node=site.node)
+                    rep.info("N1", f, site.node, "internal helper of an allow-listed public function / of a constructor or setter: the write reaches only the documented parameter / the object under construction", node=site.node)
                 reaching -= doc
                 if not reaching:
                     continue
